@@ -82,12 +82,18 @@ fn cli_case(ctx: &Ctx, rng: &mut Rng, out: &mut CaseOut) {
         let r2 = run(&[]);
         let after2 = std::fs::read(&f).unwrap_or_default();
         let text1 = String::from_utf8_lossy(&after1).to_string();
+        // signature of the known finding reflow-child-cache: the hook event, observed on the same
+        // input and configuration through the library (only computed when something is reported)
+        let suspicious = !rc.ok() || !r2.ok() || after2 != after1;
+        let cache_hit = suspicious && text1.contains("'''") && {
+            let o1 = crate::exec::format_simple(&cfg, &w.text);
+            let o2 = o1.out.as_ref().ok().map(|f1| crate::exec::format_simple(&cfg, f1));
+            o1.reflow_cache_hit() || o2.is_some_and(|o| o.reflow_cache_hit())
+        };
         let class = |c: &'static str| -> &'static str {
             if fallback {
                 "wrap-fallback"
-            } else if text1.contains("'''") && super::wf::two_mlstr_in_statement(&text1) {
-                "second-literal-stale-indent"
-            } else if w.name.contains("in_child_lines") {
+            } else if cache_hit {
                 "reflow-child-cache"
             } else {
                 c
@@ -174,8 +180,6 @@ impl Prop for C03 {
                 if f2 != f1 {
                     let class = if fallback {
                         "wrap-fallback"
-                    } else if (o1.reflowed() || o2.reflowed()) && super::wf::two_mlstr_in_statement(&f1) {
-                        "second-literal-stale-indent"
                     } else if (o1.reflow_cache_hit() || o2.reflow_cache_hit()) && f1.contains("'''") {
                         "reflow-child-cache"
                     } else {
@@ -196,8 +200,6 @@ impl Prop for C03 {
                                 if g2 != g1 {
                                     let class = if p1.has_fallback() || p2.has_fallback() {
                                         "wrap-fallback"
-                                    } else if (p1.reflowed() || p2.reflowed()) && super::wf::two_mlstr_in_statement(&g1) {
-                                        "second-literal-stale-indent"
                                     } else if p1.reflow_cache_hit() || p2.reflow_cache_hit() {
                                         "reflow-child-cache"
                                     } else {
